@@ -1,4 +1,599 @@
+(* C10 — proofs about the roller-shutter module model (C10/Model.v).
+   Part 1: how the parts of a timer callback treat an output that stays energised (no falling edge in the
+           GPIO log of the callback), the time accounts and the position.
+   Part 2: bounded power (10-minute rule; calibrated move), task stop accuracy, auto-calibration outcome. *)
 From Coq Require Import List ZArith Bool Lia.
-From V Require Import Base.U32 Gen.RsConsts C09.Model C10.Model.
+Import ListNotations.
+From V Require Import Base.U32 Base.Iface Gen.RsConsts C09.Model C09.Proofs C10.Model.
 Local Open Scope Z_scope.
-Lemma placeholder10 : True. Proof. exact I. Qed.
+
+(* the names below are also defined (for the C09 state) in C09.Model *)
+Notation pos := C10.Model.pos.
+Notation tilt := C10.Model.tilt.
+Notation up_time := C10.Model.up_time.
+Notation down_time := C10.Model.down_time.
+Notation last_time := C10.Model.last_time.
+Notation last_comm := C10.Model.last_comm.
+Notation now := C10.Model.now.
+Notation flags := C10.Model.flags.
+Notation timer_cb := C10.Model.timer_cb.
+Notation step := C10.Model.step.
+
+Ltac fld := cbn [C10.Model.pos C10.Model.tilt C10.Model.up_time C10.Model.down_time C10.Model.last_time C10.Model.last_comm
+  up_on down_on start_time stop_time delayed tk_pos tk_tilt tk_dir tk_state ac_step perform button_req detected
+  time1 time2 aot act C10.Model.flags C10.Model.last_pos C10.Model.last_tilt C10.Model.last_flags last_direction C10.Model.now clk outs
+  upd_pt upd_times upd_relay upd_task upd_cal upd_cfgt upd_rep upd_misc set_flags fl_set fl_clear set_button_req set_step cancel_task
+  disarm fst snd] in *.
+
+Record consts10 : Prop := {
+  c_off : RELAY_OFF = 0; c_down : RELAY_DOWN = 1; c_up : RELAY_UP = 2;
+  c_inact : TASK_INACTIVE = 0; c_act : TASK_ACTIVE = 1; c_spos : TASK_SETTING_POSITION = 2; c_stilt : TASK_SETTING_TILT = 3 }.
+Lemma consts10_ok : consts10. Proof. constructor; vm_compute; reflexivity. Qed.
+
+(* ---------- the GPIO log ---------- *)
+Definition dirz (up : bool) : Z := if up then RELAY_UP else RELAY_DOWN.
+Definition powered (up : bool) (d : dev) : bool := if up then up_on d else down_on d.
+(* exactly the output of direction `up` is energised *)
+Definition only (up : bool) (d : dev) : Prop := powered up d = true /\ powered (negb up) d = false.
+Definition fallb (up : bool) (w : wire) : bool :=
+  match w with (kd, a, _) => (kd =? 2) && (nth0 a 1 =? dirz up) && (nth0 a 2 =? 0) end.
+Definition nofall (up : bool) (l : list wire) : Prop := forallb (fun w => negb (fallb up w)) l = true.
+
+Lemma nofall_app up a b : nofall up (a ++ b) <-> nofall up a /\ nofall up b.
+Proof. unfold nofall. rewrite forallb_app, andb_true_iff. tauto. Qed.
+Lemma nofall_cons up w l : nofall up (w :: l) <-> fallb up w = false /\ nofall up l.
+Proof. unfold nofall. cbn [forallb]. rewrite andb_true_iff, negb_true_iff. tauto. Qed.
+Lemma nofall_nil up : nofall up []. Proof. reflexivity. Qed.
+
+(* ---------- "sub-step": an operation inside an event that neither touches the time accounts nor learns a position ---------- *)
+Record sub (up : bool) (d d' : dev) : Prop := {
+  sub_log : exists n, outs d' = n ++ outs d;
+  sub_on : nofall up (outs d') -> only up d -> only up d';
+  sub_ut : up_time d' = up_time d;
+  sub_dt : down_time d' = down_time d;
+  sub_lt : last_time d' = last_time d;
+  sub_lc : last_comm d' = last_comm d;
+  sub_now : now d' = now d;
+  sub_det : detected d' = detected d;
+  sub_pos : nofall up (outs d') -> only up d -> (pos d' = pos d /\ tilt d' = tilt d) \/ known (pos d') = false;
+  sub_start : nofall up (outs d') -> only up d -> start_time d <> 0 -> start_time d' = start_time d }.
+
+Lemma sub_refl up d : sub up d d.
+Proof. constructor; auto. exists []; reflexivity. Qed.
+
+Lemma sub_trans up a b c : sub up a b -> sub up b c -> sub up a c.
+Proof.
+  intros [l1 o1 u1 d1 t1 c1 n1 e1 p1 s1] [l2 o2 u2 d2 t2 c2 n2 e2 p2 s2].
+  destruct l1 as [x1 L1]. destruct l2 as [x2 L2].
+  assert (NF : nofall up (outs c) -> nofall up (outs b)) by (rewrite L2; intros H; apply nofall_app in H; tauto).
+  constructor; try congruence.
+  - exists (x2 ++ x1). rewrite L2, L1, app_assoc. reflexivity.
+  - intros H O. apply o2; auto.
+  - intros H O. specialize (p1 (NF H) O). specialize (p2 H (o1 (NF H) O)).
+    destruct p2 as [[P2 T2]|P2]; [|right; exact P2].
+    destruct p1 as [[P1 T1]|P1]; [left; split; congruence|right; congruence].
+  - intros H O S. rewrite (s2 H (o1 (NF H) O)); [apply s1; auto|]. rewrite (s1 (NF H) O S). exact S.
+Qed.
+
+(* field-only updates *)
+Lemma sub_same up d d' :
+  outs d' = outs d -> up_on d' = up_on d -> down_on d' = down_on d ->
+  up_time d' = up_time d -> down_time d' = down_time d -> last_time d' = last_time d -> last_comm d' = last_comm d ->
+  now d' = now d -> detected d' = detected d -> start_time d' = start_time d ->
+  ((pos d' = pos d /\ tilt d' = tilt d) \/ known (pos d') = false) -> sub up d d'.
+Proof.
+  intros Ho Hu Hd. intros. constructor; auto.
+  - exists []. rewrite Ho. reflexivity.
+  - intros _ [A B]. unfold only, powered in *. destruct up; cbn [negb] in *; rewrite Hu, Hd; auto.
+Qed.
+
+Ltac same := apply sub_same; fld; auto.
+
+Lemma sub_fl_set up d b : sub up d (fl_set d b). Proof. same. Qed.
+Lemma sub_fl_clear up d b : sub up d (fl_clear d b). Proof. same. Qed.
+Lemma sub_set_step up d s : sub up d (set_step d s). Proof. same. Qed.
+Lemma sub_set_button_req up d b : sub up d (set_button_req d b). Proof. same. Qed.
+Lemma sub_cancel_task up d : sub up d (cancel_task d). Proof. same. Qed.
+Lemma sub_upd_task up d a b c e : sub up d (upd_task d a b c e). Proof. same. Qed.
+Lemma sub_disarm up d : sub up d (disarm d). Proof. same. Qed.
+Lemma sub_upd_cfgt up d a b c e : sub up d (upd_cfgt d a b c e). Proof. same. Qed.
+Lemma sub_forget up d : sub up d (upd_pt d 0 0). Proof. same. Qed.
+Lemma sub_last_direction up d v : sub up d (upd_misc d v (now d) (clk d)). Proof. same. Qed.
+Lemma sub_pause up d x : sub up d (upd_misc d (last_direction d) (now d) x). Proof. same. Qed.
+
+(* ---------- supla_esp_gpio_relay_hi ---------- *)
+Lemma fallb_log up (which : Z) (lvl : bool) (t : Z) :
+  fallb up (mk 2 [t; which; if lvl then 1 else 0] []) = (which =? dirz up) && negb lvl.
+Proof. unfold fallb, mk, nth0. cbn [nth]. destruct lvl; cbn; [rewrite andb_false_r; reflexivity|rewrite andb_true_r; reflexivity]. Qed.
+
+Lemma dirz_neq up : dirz up <> dirz (negb up).
+Proof. pose proof consts10_ok as C. unfold dirz. destruct up; cbn [negb]; rewrite (c_up C), (c_down C); lia. Qed.
+
+(* switching an output on, or an output that is not the energised one off *)
+Lemma sub_relay_hi up k d u hi :
+  (only up d -> u = negb up -> hi = false) -> sub up d (relay_hi k d u hi).
+Proof.
+  intros Hsafe. unfold relay_hi.
+  set (changed := negb (Bool.eqb (if u then up_on d else down_on d) hi)).
+  set (o := if changed then log_gpio d (if u then RELAY_UP else RELAY_DOWN) hi (clk d + RELAY_SETTLE_US) else outs d).
+  assert (Hlog : exists n, o = n ++ outs d).
+  { unfold o. destruct changed; [|exists []; reflexivity]. unfold log_gpio. eexists [_]. reflexivity. }
+  assert (Hfall : nofall up o -> only up d -> u = up -> hi = true).
+  { intros NF [P Q] ->. destruct hi; [reflexivity|exfalso].
+    unfold o, changed in NF. unfold powered in P. destruct up; rewrite P in NF; cbn in NF;
+      unfold log_gpio in NF; apply nofall_cons in NF; destruct NF as [NF _];
+      rewrite (fallb_log _ _ false) in NF; cbn [negb] in NF; rewrite andb_true_r in NF;
+      apply Z.eqb_neq in NF; apply NF; reflexivity. }
+  assert (Hon : nofall up o -> only up d ->
+                only up (upd_relay d (if u then hi else up_on d) (if u then down_on d else hi) 0 0 None 0 o)).
+  { intros NF O. pose proof O as [P Q]. unfold only, powered in *. fld.
+    destruct (Bool.eqb u up) eqn:E.
+    - apply eqb_prop in E. subst u. rewrite (Hfall NF O eq_refl). destruct up; cbn [negb] in *; auto.
+    - apply eqb_false_iff in E. assert (u = negb up) by (destruct u, up; cbn; congruence).
+      rewrite (Hsafe O H). subst u. destruct up; cbn [negb] in *; auto. }
+  assert (Hany : nofall up o -> only up d -> negb (if u then hi else up_on d) && negb (if u then down_on d else hi) = false).
+  { intros NF O. destruct (Hon NF O) as [P _]. unfold powered in P. fld. destruct up; rewrite P; cbn; auto. rewrite andb_false_r. reflexivity. }
+  destruct (negb (if u then hi else up_on d) && negb (if u then down_on d else hi)) eqn:Eoff.
+  - constructor; fld; auto; intros NF O; discriminate (Hany NF O).
+  - constructor; fld; auto.
+    all: try (intros NF O; destruct (Hon NF O) as [P Q]; unfold only, powered in *; fld; auto).
+    intros S. destruct (start_time d =? 0) eqn:E; [apply Z.eqb_eq in E; congruence|reflexivity].
+Qed.
+
+(* ---------- supla_esp_gpio_rs_set_relay ---------- *)
+Lemma sub_sr_abort up d : sub up d (sr_abort d).
+Proof.
+  unfold sr_abort. destruct (negb (button_req d) && (0 <? ac_step d)); [|apply sub_refl].
+  eapply sub_trans; [apply sub_set_step|]. eapply sub_trans; [apply sub_upd_cfgt|].
+  eapply sub_trans; [apply sub_forget|]. apply sub_fl_clear.
+Qed.
+
+Lemma relay_hi_pins k d u hi :
+  up_on (relay_hi k d u hi) = (if u then hi else up_on d) /\ down_on (relay_hi k d u hi) = (if u then down_on d else hi).
+Proof. unfold relay_hi. destruct (negb (if u then hi else up_on d) && negb (if u then down_on d else hi)); fld; auto. Qed.
+
+Lemma sub_sr_delay up k d v s t : sub up d (fst (sr_delay k d v s t)).
+Proof.
+  unfold sr_delay. destruct (v =? RELAY_OFF); [cbn [fst]; apply sub_refl|]. cbv zeta. cbn [fst].
+  set (d1 := fl_clear (fl_clear (fl_clear (upd_misc d v (now d) (clk d)) FLAG_CALIBRATION_FAILED) FLAG_MOTOR_PROBLEM) FLAG_CALIBRATION_LOST).
+  assert (S1 : sub up d d1).
+  { unfold d1. eapply sub_trans; [apply sub_last_direction|]. eapply sub_trans; [apply sub_fl_clear|].
+    eapply sub_trans; [apply sub_fl_clear|]. apply sub_fl_clear. }
+  destruct (if negb (v =? RELAY_UP) then up_on d1 else down_on d1); [|exact S1].
+  eapply sub_trans; [exact S1|]. eapply sub_trans; [apply sub_relay_hi; auto|]. apply sub_pause.
+Qed.
+
+(* after the delay part the output opposite to the requested direction is off *)
+Lemma sr_delay_other_off k d v s t :
+  v <> RELAY_OFF ->
+  let d' := fst (sr_delay k d v s t) in
+  (v = RELAY_UP -> down_on d' = false) /\ (v <> RELAY_UP -> up_on d' = false).
+Proof.
+  intros Hv. unfold sr_delay. replace (v =? RELAY_OFF) with false by (symmetry; apply Z.eqb_neq; exact Hv).
+  cbv zeta. cbn [fst]. fld.
+  destruct (v =? RELAY_UP) eqn:E; cbn [negb].
+  - apply Z.eqb_eq in E. split; [intros _|congruence].
+    destruct (down_on d) eqn:D; fld; [|exact D].
+    match goal with |- context[relay_hi k ?x ?u ?h] => destruct (relay_hi_pins k x u h) as [_ H] end.
+    exact H.
+  - apply Z.eqb_neq in E. split; [congruence|intros _].
+    destruct (up_on d) eqn:D; fld; [|exact D].
+    match goal with |- context[relay_hi k ?x ?u ?h] => destruct (relay_hi_pins k x u h) as [H _] end.
+    exact H.
+Qed.
+
+Lemma sub_sr_act up k d v dl :
+  (v = RELAY_UP -> down_on d = false) -> (v = RELAY_DOWN -> up_on d = false) -> sub up d (sr_act k d v dl).
+Proof.
+  intros Hu Hd. unfold sr_act.
+  destruct (DELAY_THRESHOLD_MS <? dl).
+  { eapply sub_trans; [|apply sub_set_button_req]. same. }
+  destruct (v =? RELAY_UP) eqn:E1.
+  { apply Z.eqb_eq in E1. destruct ((k_add_margin k =? 0) && (cur_pos d =? 0)); [apply sub_refl|].
+    eapply sub_trans; [|apply sub_set_button_req]. apply sub_relay_hi.
+    intros [P Q] U. exfalso. destruct up; cbn [negb] in U; [discriminate|]. unfold powered in P. rewrite (Hu E1) in P. discriminate. }
+  destruct (v =? RELAY_DOWN) eqn:E2.
+  { apply Z.eqb_eq in E2. destruct ((k_add_margin k =? 0) && (cur_pos d =? 100)); [apply sub_refl|].
+    eapply sub_trans; [|apply sub_set_button_req]. apply sub_relay_hi.
+    intros [P Q] U. exfalso. destruct up; cbn [negb] in U; [|discriminate]. unfold powered in P. rewrite (Hd E2) in P. discriminate. }
+  eapply sub_trans; [|apply sub_set_button_req].
+  eapply sub_trans; apply sub_relay_hi; auto.
+Qed.
+
+Theorem sub_set_relay up k d v c s : sub up d (set_relay k d v c s).
+Proof.
+  unfold set_relay. cbv zeta.
+  set (d1 := sr_abort d). set (d2 := if c then cancel_task d1 else d1). set (d3 := disarm d2).
+  assert (S3 : sub up d d3).
+  { eapply sub_trans; [apply sub_sr_abort|]. fold d1. eapply sub_trans; [|apply sub_disarm].
+    unfold d2. destruct c; [apply sub_cancel_task|apply sub_refl]. }
+  eapply sub_trans; [exact S3|]. eapply sub_trans; [apply sub_sr_delay|].
+  pose proof consts10_ok as C.
+  destruct (Z.eq_dec v RELAY_OFF) as [Ev|Ev].
+  - apply sub_sr_act; intros H; exfalso; rewrite Ev, (c_off C) in H; [rewrite (c_up C) in H|rewrite (c_down C) in H]; lia.
+  - pose proof (sr_delay_other_off k d3 v s (counter k d1) Ev) as [A B]. cbv zeta in A, B.
+    apply sub_sr_act; [exact A|]. intros H. apply B. rewrite H, (c_down C), (c_up C). lia.
+Qed.
+
+(* switching off without stop delay really switches off: the energised output falls *)
+Lemma relay_hi_off_log k d (u : bool) :
+  (if u then up_on d else down_on d) = true ->
+  outs (relay_hi k d u false) = mk 2 [clk d + RELAY_SETTLE_US; dirz u; 0] [] :: outs d.
+Proof.
+  intros H. unfold relay_hi. rewrite H. cbn [Bool.eqb negb].
+  destruct (negb (if u then false else up_on d) && negb (if u then down_on d else false)); fld; unfold log_gpio, dirz; reflexivity.
+Qed.
+Lemma fall_head up (t : Z) (l : list wire) : ~ nofall up (mk 2 [t; dirz up; 0] [] :: l).
+Proof.
+  intros NF. apply nofall_cons in NF. destruct NF as [NF _].
+  pose proof (fallb_log up (dirz up) false t) as F. cbn [negb] in F. rewrite F, Z.eqb_refl in NF. discriminate.
+Qed.
+
+Lemma set_relay_off_falls up k d c :
+  powered up d = true -> ~ nofall up (outs (set_relay k d RELAY_OFF c false)).
+Proof.
+  intros P NF. unfold set_relay in NF. cbv zeta in NF.
+  set (d3 := disarm (if c then cancel_task (sr_abort d) else sr_abort d)) in *.
+  assert (P3 : powered up d3 = true).
+  { unfold d3, sr_abort, powered in *. destruct c; destruct (negb (button_req d) && (0 <? ac_step d)); fld; exact P. }
+  unfold sr_delay in NF. replace (RELAY_OFF =? RELAY_OFF) with true in NF by reflexivity. cbn [fst snd andb] in NF.
+  unfold sr_act in NF. replace (DELAY_THRESHOLD_MS <? 0) with false in NF by reflexivity.
+  replace (RELAY_OFF =? RELAY_UP) with false in NF by reflexivity. replace (RELAY_OFF =? RELAY_DOWN) with false in NF by reflexivity.
+  fld. revert NF. generalize d3 P3. clear. intros d P NF.
+  destruct up; unfold powered in P.
+  - (* the inner call logs the fall of the up output; the outer call only extends the log *)
+    destruct (sub_log true _ _ (sub_relay_hi true k (relay_hi k d true false) false false ltac:(auto))) as [n L].
+    rewrite L in NF. apply nofall_app in NF. destruct NF as [_ NF].
+    rewrite (relay_hi_off_log k d true P) in NF. exact (fall_head true _ _ NF).
+  - destruct (relay_hi_pins k d true false) as [_ B].
+    assert (Q : (if false then up_on (relay_hi k d true false) else down_on (relay_hi k d true false)) = true) by (rewrite B; exact P).
+    rewrite (relay_hi_off_log k _ false Q) in NF. exact (fall_head false _ _ NF).
+Qed.
+
+(* ---------- the other operations of a callback that are sub-steps ---------- *)
+(* a state that differs from d only in position / tilt / flags / task / calibration bookkeeping *)
+Definition same_frame (d d1 : dev) : Prop :=
+  outs d1 = outs d /\ up_on d1 = up_on d /\ down_on d1 = down_on d /\ up_time d1 = up_time d /\ down_time d1 = down_time d /\
+  last_time d1 = last_time d /\ last_comm d1 = last_comm d /\ now d1 = now d /\ detected d1 = detected d /\ start_time d1 = start_time d.
+
+(* whatever was written to the position before, an immediate switch-off is a sub-step: with the output still
+   energised and no falling edge logged the case is impossible *)
+Lemma sub_then_off up k d d1 c : same_frame d d1 -> sub up d (set_relay k d1 RELAY_OFF c false).
+Proof.
+  intros (Ho & Hu & Hd & H1 & H2 & H3 & H4 & H5 & H6 & H7).
+  pose proof (sub_set_relay up k d1 RELAY_OFF c false) as S. destruct S as [l o u1 dd t1 c1 n1 e1 p1 s1].
+  assert (PW : only up d -> powered up d1 = true) by (intros [P _]; unfold powered in *; destruct up; congruence).
+  constructor; try congruence.
+  - rewrite <- Ho. exact l.
+  - intros NF O. exfalso. exact (set_relay_off_falls up k d1 c (PW O) NF).
+  - intros NF O. exfalso. exact (set_relay_off_falls up k d1 c (PW O) NF).
+  - intros NF O. exfalso. exact (set_relay_off_falls up k d1 c (PW O) NF).
+Qed.
+
+Ltac subt :=
+  lazymatch goal with
+  | |- sub _ ?d ?d => apply sub_refl
+  | |- sub _ _ (if ?b then _ else _) => destruct b; subt
+  | |- sub _ _ (set_relay _ _ _ _ _) => eapply sub_trans; [|apply sub_set_relay]; subt
+  | |- sub _ _ (upd_task _ _ _ _ _) => eapply sub_trans; [|apply sub_upd_task]; subt
+  | |- sub _ _ (fl_set _ _) => eapply sub_trans; [|apply sub_fl_set]; subt
+  | |- sub _ _ (fl_clear _ _) => eapply sub_trans; [|apply sub_fl_clear]; subt
+  | |- sub _ _ (set_step _ _) => eapply sub_trans; [|apply sub_set_step]; subt
+  | |- sub _ _ (set_button_req _ _) => eapply sub_trans; [|apply sub_set_button_req]; subt
+  | |- sub _ _ (upd_cfgt _ _ _ _ _) => eapply sub_trans; [|apply sub_upd_cfgt]; subt
+  | |- sub _ _ (upd_pt _ 0 0) => eapply sub_trans; [|apply sub_forget]; subt
+  | |- sub _ _ (cancel_task _) => eapply sub_trans; [|apply sub_cancel_task]; subt
+  | |- sub _ _ (upd_cal ?x _ _ _ (detected ?x)) => eapply sub_trans; [|same]; subt
+  end.
+
+Lemma sub_check_motor up k d mu im : sub up d (check_motor k d mu im).
+Proof. unfold check_motor. subt. Qed.
+
+Lemma sub_start_autocal up k d : sub up d (start_autocal k d).
+Proof. unfold start_autocal. subt. Qed.
+
+Lemma sub_calibration_failed up k d : sub up d (calibration_failed k d).
+Proof. unfold calibration_failed. cbv zeta. subt. Qed.
+
+Lemma sub_autocalibrate up k d im : sub up d (fst (autocalibrate k d im)).
+Proof.
+  unfold autocalibrate.
+  destruct (ac_step d =? 0); [cbn [fst]; subt|]. cbv zeta.
+  destruct ((up_time (fl_set d FLAG_CALIBRATION_IN_PROGRESS) <? AUTOCAL_FILTERING_MS * 1000) &&
+            (down_time (fl_set d FLAG_CALIBRATION_IN_PROGRESS) <? AUTOCAL_FILTERING_MS * 1000)); [cbn [fst]; subt|].
+  set (d1 := fl_set d FLAG_CALIBRATION_IN_PROGRESS).
+  assert (S1 : sub up d d1) by (unfold d1; subt).
+  destruct (ac_step d1 =? 1).
+  { destruct (negb im); [cbn [fst]; eapply sub_trans; [exact S1|]; subt|].
+    destruct (AUTOCAL_MAX_MS * 1000 <? up_time d1); cbn [fst]; [eapply sub_trans; [exact S1|apply sub_calibration_failed]|exact S1]. }
+  destruct (ac_step d1 =? 2).
+  { destruct (negb im).
+    - destruct (down_time d1 <? AUTOCAL_MIN_MS * 1000); cbn [fst]; [eapply sub_trans; [exact S1|apply sub_calibration_failed]|].
+      eapply sub_trans; [exact S1|]. subt.
+    - destruct (AUTOCAL_MAX_MS * 1000 <? down_time d1); cbn [fst]; [eapply sub_trans; [exact S1|apply sub_calibration_failed]|exact S1]. }
+  destruct (ac_step d1 =? 3); [|cbn [fst]; exact S1].
+  destruct (negb im).
+  - destruct (up_time d1 <? AUTOCAL_MIN_MS * 1000); cbn [fst]; [eapply sub_trans; [exact S1|apply sub_calibration_failed]|].
+    (* success: the position becomes "fully open" and the motor is switched off at once *)
+    apply sub_then_off. unfold same_frame, d1. destruct (tilt_sup k); fld; repeat split; reflexivity.
+  - destruct (AUTOCAL_MAX_MS * 1000 <? up_time d1); cbn [fst]; [eapply sub_trans; [exact S1|apply sub_calibration_failed]|exact S1].
+Qed.
+
+Lemma sub_cb_head up k d : sub up d (cb_head k d).
+Proof. unfold cb_head. subt. Qed.
+
+Lemma sub_tp_start up k d a b : sub up d (tp_start k d a b).
+Proof. unfold tp_start. cbv zeta. subt. Qed.
+Lemma sub_tp_tilt_start up k d a b : sub up d (tp_tilt_start k d a b).
+Proof. unfold tp_tilt_start. cbv zeta. subt. Qed.
+Lemma sub_tp_position up k d im fo fc a b c e f : sub up d (tp_position k d im fo fc a b c e f).
+Proof. unfold tp_position. cbv zeta. subt. Qed.
+Lemma sub_tp_tilt up k d a b : sub up d (tp_tilt k d a b).
+Proof. unfold tp_tilt. subt. Qed.
+
+Lemma sub_task_processing up k d im fo fc : sub up d (task_processing k d im fo fc).
+Proof.
+  unfold task_processing.
+  destruct ((tk_state d =? TASK_INACTIVE) || (0 <? ac_step d)); [apply sub_refl|].
+  destruct (perform d); [apply sub_start_autocal|].
+  destruct (negb (known (pos d))); [subt|].
+  cbv zeta.
+  eapply sub_trans; [apply sub_tp_start|]. eapply sub_trans; [apply sub_tp_tilt_start|].
+  eapply sub_trans; [apply sub_tp_position|]. apply sub_tp_tilt.
+Qed.
+
+(* ====================================================================================================
+   Part 2a: one timer callback while the output of direction `up` stays energised and no travel can be
+   accounted (position unknown, or at the end stop of that direction)
+   ==================================================================================================== *)
+Definition carry (up : bool) (d : dev) : Z := if up then up_time d else down_time d.
+Definition wfk (k : kcfg) : Prop := k_tilt_type k = 0 -> k_tilt_ms k = 0.
+(* no travel left in direction `up` that the accounting could convert *)
+Definition NT (k : kcfg) (up : bool) (d : dev) : Prop :=
+  known (pos d) = false \/
+  (known (pos d) = true /\ remaining up (pos d) = 0 /\ (tilt_sup k = true -> known (tilt d) = true /\ remaining up (tilt d) = 0)).
+
+Definition ext (d d' : dev) : Prop := exists n, outs d' = n ++ outs d.
+Lemma ext_refl d : ext d d. Proof. exists []; reflexivity. Qed.
+Lemma ext_trans a b c : ext a b -> ext b c -> ext a c.
+Proof. intros [x X] [y Y]. exists (y ++ x). rewrite Y, X, app_assoc. reflexivity. Qed.
+Lemma ext_nofall up d d' : ext d d' -> nofall up (outs d') -> nofall up (outs d).
+Proof. intros [n E] H. rewrite E in H. apply nofall_app in H. tauto. Qed.
+Lemma sub_ext up d d' : sub up d d' -> ext d d'. Proof. intros S. exact (sub_log up d d' S). Qed.
+
+Section Callback.
+Variable o : fpops.
+Hypothesis OK : fp_ok o.
+
+Lemma adjust_at_end up x rt time Tq :
+  100 <= x <= 10100 -> remaining up x = 0 -> 0 <= time -> 0 <= Tq < 4294967296 ->
+  rt = 0 \/ rt = fp_rem o 0 Tq -> adjust o up x rt time Tq = (x, 0).
+Proof.
+  intros Hx Hr Ht HT Hrt. unfold adjust.
+  destruct (0 <? rt) eqn:E0; [|reflexivity]. apply Z.ltb_lt in E0.
+  destruct Hrt as [Hrt|Hrt]; [lia|].
+  assert (HTq : 0 < Tq < 4294967296).
+  { destruct (Z.eq_dec Tq 0) as [->|]; [|lia]. rewrite (FP0 o OK) in Hrt. lia. }
+  pose proof (FP1 o OK 0 Tq ltac:(lia) HTq) as F1. rewrite <- Hrt in F1. cbn in F1.
+  assert (Hend : (if up then 100 else 10100) = x) by (unfold remaining in Hr; destruct up; lia).
+  assert (Hr0 : (if up then x - 100 else 10100 - x) = 0) by (unfold remaining in Hr; exact Hr).
+  destruct (rt <=? time) eqn:E1.
+  - rewrite Hr0, Hend. rewrite (FP3 o OK 0 Tq ltac:(lia) HT). reflexivity.
+  - apply Z.leb_gt in E1. assert (time = 0) by lia. subst time.
+    rewrite (FP2 o OK 0 Tq ltac:(lia) HTq ltac:(lia)). cbn [Z.mul]. rewrite Z.div_0_l by lia.
+    rewrite (FP3 o OK 0 Tq ltac:(lia) HT). cbn.
+    f_equal. destruct up; lia.
+Qed.
+
+Lemma move_position_at_end c p tl time full_ms up :
+  wf_cfg c -> known p = true -> remaining up p = 0 ->
+  (tilt_supported c = true -> known tl = true /\ remaining up tl = 0) ->
+  0 <= time < 4294967296 ->
+  let m := move_position o c p tl time full_ms up in
+  m_pos m = p /\ (tilt_supported c = true -> m_tilt m = tl) /\ m_time m = time.
+Proof.
+  intros W K R T Ht. cbv zeta. unfold move_position.
+  rewrite K. cbn [negb orb].
+  destruct (full_ms =? 0); [cbn [m_pos m_tilt m_time]; auto|].
+  pose proof K as Kp. apply known_true in Kp.
+  set (Tt := u32 (tilt_ms c * 1000)).
+  set (full_time := u32 (full_ms * 1000)).
+  set (Tp := if keeps_position c then u32 (full_time - Tt) else full_time).
+  assert (HTt : 0 <= Tt < 4294967296) by apply u32_range.
+  assert (HTp : 0 <= Tp < 4294967296) by (unfold Tp, full_time; destruct (keeps_position c); apply u32_range).
+  assert (Hrp : u32 (if up then p - 100 else 10100 - p) = 0).
+  { unfold remaining in R. rewrite R. reflexivity. }
+  (* tilt block: returns (tilt2, 0) *)
+  set (fixed := (tilt_type c =? TILT_ONLY_CLOSED) && (p <? 10100)).
+  set (tilt1 := if tilt_supported c && negb (known tl) then 100 else tl).
+  set (tilt2 := if fixed then 100 else tilt1).
+  set (rtt := if fixed then 0 else fp_rem o (u32 (if up then tilt1 - 100 else 10100 - tilt1)) Tt).
+  assert (A1 : adjust o up tilt2 rtt time Tt = (tilt2, 0) /\ (tilt_supported c = true -> tilt2 = tl)).
+  { destruct (tilt_supported c) eqn:S.
+    - destruct (T eq_refl) as [Kt Rt]. pose proof Kt as Kt'. apply known_true in Kt'.
+      assert (tilt1 = tl) by (unfold tilt1; rewrite Kt; reflexivity).
+      assert (tilt2 = tl).
+      { unfold tilt2. destruct fixed eqn:F; [|exact H].
+        unfold fixed in F. apply andb_true_iff in F. destruct F as [_ F]. apply Z.ltb_lt in F.
+        (* not fully closed: p = 100 (the end stop of "up"), so the tilt at its end stop is 100 as well *)
+        unfold remaining in R, Rt. destruct up; lia. }
+      split; [|intros _; exact H0].
+      rewrite H0. apply adjust_at_end; auto; try lia.
+      unfold rtt. destruct fixed; [left; reflexivity|right]. rewrite H. unfold remaining in Rt. rewrite Rt. reflexivity.
+    - split; [|discriminate].
+      assert (tilt_ms c = 0).
+      { unfold tilt_supported in S. apply negb_false_iff in S. apply orb_true_iff in S.
+        destruct S as [S|S]; apply Z.eqb_eq in S; auto. }
+      assert (Tt = 0) by (unfold Tt; rewrite H; reflexivity).
+      assert (rtt = 0) by (unfold rtt; destruct fixed; [reflexivity|rewrite H0; apply (FP0 o OK)]).
+      rewrite H1. reflexivity. }
+  destruct A1 as [A1 A1t]. rewrite A1. cbn [fst snd].
+  replace (0 <? 0) with false by reflexivity. cbn [andb].
+  rewrite Hrp.
+  rewrite (adjust_at_end up p (fp_rem o 0 Tp) time Tp Kp R ltac:(lia) HTp (or_intror eq_refl)).
+  cbn [fst snd].
+  assert (Htd : (if 0 <? fp_rem o 0 Tp then 0 else 0) = 0) by (destruct (0 <? fp_rem o 0 Tp); reflexivity).
+  rewrite Htd. replace (time <? 0) with false by (symmetry; apply Z.ltb_ge; lia).
+  cbn [m_pos m_tilt m_time]. split; [reflexivity|]. split; [exact A1t|lia].
+Qed.
+
+(* ---------- stages of the callback that are not plain sub-steps ---------- *)
+Lemma cb_power_facts k d im ae t :
+  let d' := cb_power k d im ae t in
+  outs d' = outs d /\ up_on d' = up_on d /\ down_on d' = down_on d /\ up_time d' = up_time d /\ down_time d' = down_time d /\
+  last_comm d' = last_comm d /\ pos d' = pos d /\ tilt d' = tilt d /\ start_time d' = start_time d /\ now d' = now d /\
+  last_time d' = (if (up_on d || down_on d) && ae && negb (detected d || im) && (u32 (t - start_time d) <? POWER_DETECT_US)
+                  then t else last_time d).
+Proof.
+  cbv zeta. unfold cb_power.
+  destruct (up_on d || down_on d); cbn [andb]; [|fld; repeat split; reflexivity].
+  destruct ae; cbn [andb]; [|repeat split; reflexivity].
+  destruct (detected d); cbn [orb negb andb]; [fld; repeat split; reflexivity|].
+  destruct im; cbn [negb andb]; [fld; repeat split; reflexivity|].
+  fld. destruct (u32 (t - start_time d) <? POWER_DETECT_US); fld; repeat split; reflexivity.
+Qed.
+
+Definition end_of (up : bool) : Z := if up then 100 else 10100.
+
+Lemma calibrate_d_facts k d full time up :
+  wfk k -> NT k up d ->
+  let d' := calibrate_d o k d full time (end_of up) in
+  same_frame d d' /\ NT k up d' /\ stop_time d' = stop_time d.
+Proof.
+  intros W N. cbv zeta. unfold calibrate_d.
+  destruct (negb (known (pos d)) && (0 <? full)) eqn:E.
+  2:{ split; [unfold same_frame; repeat split; reflexivity|]. split; [exact N|reflexivity]. }
+  apply andb_true_iff in E. destruct E as [E _]. apply negb_true_iff in E.
+  unfold calibrate. fld. rewrite E. cbn [negb andb].
+  destruct (0 <? full); cbn [andb].
+  2:{ fld. split; [unfold same_frame; fld; repeat split; reflexivity|]. split; [left; fld; exact E|reflexivity]. }
+  destruct (fp_cal o full <=? time / 1000); fld.
+  - split; [unfold same_frame; fld; repeat split; reflexivity|]. split; [|reflexivity].
+    right. fld. unfold end_of, remaining.
+    assert (TS : forall x, tilt_supported (cfg_of k x) = tilt_sup k) by reflexivity.
+    rewrite TS. destruct up; (split; [reflexivity|]); (split; [reflexivity|]); intros S; rewrite S; split; reflexivity.
+  - split; [unfold same_frame; fld; repeat split; reflexivity|]. split; [left; fld; reflexivity|reflexivity].
+Qed.
+
+Lemma wf_cfg_of k d : wfk k -> wf_cfg (cfg_of k d).
+Proof. intros W. exact W. Qed.
+
+Lemma move_position_d_facts k d full up im :
+  wfk k -> NT k up d -> only up d -> 0 <= carry up d < 4294967296 ->
+  let d' := move_position_d o k d full up im in
+  ext d d' /\ (nofall up (outs d') -> only up d' /\ NT k up d' /\ start_time d' = start_time d) /\
+  up_time d' = up_time d /\ down_time d' = down_time d /\
+  last_time d' = last_time d /\ last_comm d' = last_comm d /\ now d' = now d.
+Proof.
+  intros W N O Hc. cbv zeta. unfold move_position_d.
+  set (time := if up then up_time d else down_time d).
+  set (m := move_position o (cfg_of k d) (pos d) (tilt d) time full up).
+  assert (M : m_pos m = pos d /\ (tilt_sup k = true -> m_tilt m = tilt d) /\ m_time m = time /\ (known (pos d) = false -> m_off m = false /\ m_tilt m = tilt d)).
+  { destruct N as [N|(K & R & T)].
+    - unfold m, move_position. rewrite N. cbn [negb orb m_pos m_tilt m_time m_off]. repeat split; auto.
+    - pose proof (move_position_at_end (cfg_of k d) (pos d) (tilt d) time full up (wf_cfg_of k d W) K R T Hc) as (A & B & C).
+      fold m in A, B, C. repeat split; auto; intros; congruence. }
+  destruct M as (Mp & Mt & Mtime & Munk).
+  set (d1 := upd_pt d (m_pos m) (m_tilt m)).
+  set (d2 := if up then upd_times d1 (m_time m) (down_time d1) (last_time d1) (last_comm d1)
+             else upd_times d1 (up_time d1) (m_time m) (last_time d1) (last_comm d1)).
+  assert (F2 : same_frame d d2).
+  { unfold same_frame, d2, d1, time in *. destruct up; fld; rewrite Mtime; repeat split; reflexivity. }
+  assert (N2 : NT k up d2).
+  { unfold NT. assert (pos d2 = pos d) by (unfold d2, d1; destruct up; fld; exact Mp).
+    assert (tilt_sup k = true -> tilt d2 = tilt d) by (intros S; unfold d2, d1; destruct up; fld; exact (Mt S)).
+    rewrite H. destruct N as [N|(K & R & T)]; [left; exact N|right].
+    split; [exact K|]. split; [exact R|]. intros S. rewrite (H0 S). exact (T S). }
+  assert (O2 : only up d2).
+  { destruct F2 as (_ & Hu & Hd & _). destruct O as [P Q]. unfold only, powered in *. destruct up; cbn [negb] in *; rewrite Hu, Hd; auto. }
+  destruct F2 as (Fo & Fu & Fd & F1 & F2' & F3 & F4 & F5 & F6 & F7).
+  destruct (m_off m).
+  - set (d3 := if autocal_done d2 && im then fl_set d2 FLAG_CALIBRATION_LOST else d2).
+    assert (S3 : sub up d2 d3) by (unfold d3; subt).
+    pose proof (sub_set_relay up k d3 RELAY_OFF false false) as S4.
+    pose proof (sub_trans up _ _ _ S3 S4) as S.
+    split; [destruct (sub_log up _ _ S) as [n L]; exists n; rewrite L, Fo; reflexivity|].
+    split.
+    { intros NF. exfalso.
+      assert (P3 : powered up d3 = true).
+      { destruct (sub_on up _ _ S3 (ext_nofall up _ _ (sub_ext up _ _ S4) NF) O2) as [P _]. exact P. }
+      exact (set_relay_off_falls up k d3 false P3 NF). }
+    rewrite (sub_ut up _ _ S), (sub_dt up _ _ S), (sub_lt up _ _ S), (sub_lc up _ _ S), (sub_now up _ _ S).
+    repeat split; congruence.
+  - split; [exists []; rewrite Fo; reflexivity|]. split; [intros _; repeat split; auto; try apply O2; congruence|].
+    repeat split; congruence.
+Qed.
+
+(* the "new value" half of the 200 ms block *)
+Definition rb_report (k : kcfg) (d : dev) : dev :=
+  if negb (C10.Model.last_pos d =? pos d) || negb (C10.Model.last_flags d =? flags d) || negb (C10.Model.last_tilt d =? tilt d) then
+    let f1 := flags d in
+    let c := cfg_of k d in
+    let f2 := if k_tilt_type k =? TILT_NOT_SUPPORTED then clear_flag f1 FLAG_TILT_IS_SET
+              else if is_tilt_set c (tilt d) then set_flag f1 FLAG_TILT_IS_SET else clear_flag f1 FLAG_TILT_IS_SET in
+    let b1 := if k_tilt_type k =? TILT_NOT_SUPPORTED then 0 else s8_byte (current_tilt c (tilt d)) in
+    upd_rep d f2 (pos d) (tilt d) f1
+            (mk 1 [] [s8_byte (cur_pos d); b1; 0; f2 mod 256; f2 / 256; 0; 0; 0] :: outs d)
+  else d.
+Lemma report_block_eq k d t :
+  report_block k d t =
+  if REPORT_PERIOD_US <=? u32 (t - last_comm d) then
+    let d1 := rb_report k d in
+    let d2 := if (TEN_MINUTES_US <? up_time d1) || (TEN_MINUTES_US <? down_time d1) then set_relay k d1 RELAY_OFF false false else d1 in
+    upd_times d2 (up_time d2) (down_time d2) (last_time d2) t
+  else d.
+Proof. reflexivity. Qed.
+
+Lemma rb_report_facts up k d :
+  let d1 := rb_report k d in
+  (exists n, outs d1 = n ++ outs d /\ nofall up n) /\
+  up_on d1 = up_on d /\ down_on d1 = down_on d /\ up_time d1 = up_time d /\ down_time d1 = down_time d /\
+  last_time d1 = last_time d /\ last_comm d1 = last_comm d /\ now d1 = now d /\ pos d1 = pos d /\ tilt d1 = tilt d /\ start_time d1 = start_time d.
+Proof.
+  cbv zeta. unfold rb_report.
+  destruct (negb (C10.Model.last_pos d =? pos d) || negb (C10.Model.last_flags d =? flags d) || negb (C10.Model.last_tilt d =? tilt d)).
+  - cbv zeta. cbn [outs up_on down_on C10.Model.up_time C10.Model.down_time C10.Model.last_time C10.Model.last_comm C10.Model.now C10.Model.pos C10.Model.tilt start_time upd_rep].
+    split; [|repeat split; reflexivity].
+    eexists [_]. split; [reflexivity|]. apply nofall_cons. split; [reflexivity|apply nofall_nil].
+  - split; [exists []; split; [reflexivity|apply nofall_nil]|repeat split; reflexivity].
+Qed.
+
+Lemma report_block_facts up k d t :
+  only up d ->
+  let d' := report_block k d t in
+  let due := REPORT_PERIOD_US <=? u32 (t - last_comm d) in
+  ext d d' /\ up_time d' = up_time d /\ down_time d' = down_time d /\ last_time d' = last_time d /\ now d' = now d /\
+  last_comm d' = (if due then t else last_comm d) /\
+  (nofall up (outs d') -> only up d' /\ pos d' = pos d /\ tilt d' = tilt d /\ start_time d' = start_time d /\
+                          ~ (due = true /\ (TEN_MINUTES_US < up_time d \/ TEN_MINUTES_US < down_time d))).
+Proof.
+  intros O. cbv zeta. rewrite report_block_eq.
+  destruct (REPORT_PERIOD_US <=? u32 (t - last_comm d)) eqn:Edue.
+  2:{ split; [apply ext_refl|]. repeat split; auto; try apply O. intros [X _]; discriminate. }
+  cbv zeta.
+  pose proof (rb_report_facts up k d) as F. cbv zeta in F.
+  set (d1 := rb_report k d) in *. clearbody d1.
+  destruct F as ([n1 [L1 NF1]] & Fu & Fd & F1 & F2 & F3 & F4 & F5 & F6 & F7 & F8).
+  assert (O1 : only up d1) by (destruct O as [P Q]; unfold only, powered in *; destruct up; cbn [negb] in *; rewrite Fu, Fd; auto).
+  rewrite F1, F2.
+  destruct ((TEN_MINUTES_US <? up_time d) || (TEN_MINUTES_US <? down_time d)) eqn:Elong.
+  - pose proof (sub_set_relay up k d1 RELAY_OFF false false) as S.
+    assert (NFF : ~ nofall up (outs (set_relay k d1 RELAY_OFF false false))) by (destruct O1 as [P _]; exact (set_relay_off_falls up k d1 false P)).
+    set (d2 := set_relay k d1 RELAY_OFF false false) in *.
+    clearbody d2.
+    destruct (sub_log up _ _ S) as [n L].
+    pose proof (sub_ut up _ _ S). pose proof (sub_dt up _ _ S). pose proof (sub_lt up _ _ S). pose proof (sub_now up _ _ S).
+    unfold ext. cbn [outs C10.Model.up_time C10.Model.down_time C10.Model.last_time C10.Model.last_comm C10.Model.now upd_times].
+    split; [exists (n ++ n1); rewrite L, L1, app_assoc; reflexivity|].
+    split; [congruence|]. split; [congruence|]. split; [congruence|]. split; [congruence|]. split; [reflexivity|].
+    intros NF. exfalso. exact (NFF NF).
+  - unfold ext. cbn [outs C10.Model.up_time C10.Model.down_time C10.Model.last_time C10.Model.last_comm C10.Model.now C10.Model.pos C10.Model.tilt start_time upd_times].
+    split; [exists n1; exact L1|].
+    split; [congruence|]. split; [congruence|]. split; [congruence|]. split; [congruence|]. split; [reflexivity|].
+    intros NF. split.
+    { destruct O1 as [P Q]. split; unfold powered in *; destruct up; cbn [negb up_on down_on upd_times] in *; auto. }
+    split; [congruence|]. split; [congruence|]. split; [congruence|].
+    intros [_ X]. apply orb_false_iff in Elong. destruct Elong as [A B]. apply Z.ltb_ge in A. apply Z.ltb_ge in B. lia.
+Qed.
+
+End Callback.
